@@ -457,6 +457,9 @@ func (p *parser) primary() SVal {
 	case "id":
 		name := t.s
 		if p.isOp("(") {
+			if v, ok := p.e.Vars[name]; ok {
+				return v // a bound function value: applied by the postfix rule
+			}
 			return p.funcall(name, nil)
 		}
 		if v, ok := p.e.Vars[name]; ok {
